@@ -47,11 +47,19 @@ class Ctx:
         return self._triples[key]
 
 
-def wire_props(ctx, modes, want, floor_impls):
+CORPUS = ("wcorpus",)
+
+
+def wire_props(ctx, modes, want, floor_impls, only_crates=None):
     rep = ctx.rep
-    u, w, ts, exp = ctx.triples()
+    u, w, ts, exp = ctx.triples("default", CORPUS)
     n = 0
+    nd = 0
     for t in ts:
+        if only_crates and t.crate not in only_crates:
+            continue
+        if t.crate != "epserde":
+            nd += 1
         rules_wire.check_triple(t, exp, rep, modes=modes, want=want)
         n += 1
         for side in ("ser",) + tuple(modes):
@@ -59,7 +67,10 @@ def wire_props(ctx, modes, want, floor_impls):
                 if len(rep.samples) < 8 and p.outcome == "ok" and p.atoms:
                     rep.sample({"impl": t.key, "side": side, "when": p.cond_show(), "term": p.show()})
     rep.count("impls_analysed", n)
+    rep.count("derived_impls_analysed", nd)
     rep.floor("SerializeInner/DeserializeInner impl pairs", n, floor_impls)
+    if not only_crates or "wcorpus" in only_crates:
+        rep.floor("derived impl pairs of the corpus", nd, 30)
     return ts
 
 
@@ -89,12 +100,92 @@ def check_C15(ctx):
     rep = ctx.rep
     rep.rule("W3", "writer variant->tag injective; both readers' tag->variant maps are the inverse; default arm = Err(InvalidTag(the tag read)); no catch-all arm builds a value")
     ts = wire_props(ctx, ("full", "eps"), ("W3",), 56)
-    nsum = sum(1 for t in ts if getattr(t, "is_sum", False))
+    nsum = sum(1 for t in ts if getattr(t, "is_sum", False) and t.crate == "epserde")
     rep.floor("built-in tagged sum types", nsum, 3)
+    nsum2 = sum(1 for t in ts if getattr(t, "is_sum", False) and t.crate != "epserde")
+    rep.floor("derived enums of the corpus", nsum2, 7)
     return "Tag tables of every tagged sum type extracted from the resolved program (writer match on self, reader match on the tag read) and compared as finite maps."
 
 
-CHECKS = {"C01": check_C01, "C02": check_C02, "C15": check_C15}
+def check_C05(ctx):
+    import json
+    rep = ctx.rep
+    rep.rule("COMPILE", "every definition of the corpus compiles with the working-tree derive macro (witness crate patched to /repo/epserde-derive)")
+    rep.rule("W1-W4", "sibling agreement of the three derived bodies of every corpus type")
+    rep.rule("MODE", "in the derived eps reader a field is read with _deserialize_eps_inner iff its declared type is exactly a type parameter of the item")
+    rep.rule("ASSOC", "normalised DeserType / SerType of closed corpus instances (computed by rustc) equal the hand-written expectation derived from the property statement")
+    try:
+        ts = wire_props(ctx, ("full", "eps"), ("W1", "W2", "W3", "W4", "W5", "PROB"), 30, only_crates=("wcorpus",))
+    except ExportError as ex:
+        msg = "\n".join(l for l in str(ex).splitlines() if l.startswith("error"))[:600]
+        rep.add("COMPILE", "wcorpus", "the corpus of derived definitions does not compile with the working-tree derive macro: " + msg)
+        return "corpus failed to compile"
+    u = ctx.universe("default", CORPUS)
+    # MODE
+    for t in ts:
+        if t.crate == "epserde" or t.des_impl is None:
+            continue
+        st = t.des_impl.self_ty
+        if st[0] != "adt" or st[1] not in u.adts:
+            continue
+        c, aj = u.adts[st[1]]
+        for r in t.paths.get("eps", []) or []:
+            if r.outcome != "ok" or not (isinstance(r.value, tuple) and r.value and r.value[0] == "adt"):
+                continue
+            vi = r.value[2]
+            var = [v for v in aj["variants"] if v["index"] == vi]
+            if not var:
+                continue
+            for (fi, fv) in r.value[3]:
+                if fi >= len(var[0]["fields"]):
+                    continue
+                fty = c.ty(var[0]["fields"][fi]["ty"])
+                want = "eps" if fty[0] == "param" else "full"
+                for k in rules_wire.atoms_in(fv):
+                    for a in r.atoms:
+                        if a.atom == k and a.k == "F":
+                            ok = a.mode == want
+                            rep.oblige(ok)
+                            rep.count("fields_mode_classified")
+                            if not ok:
+                                rep.add("MODE", "%s:%s.%s" % (t.key, var[0]["name"], var[0]["fields"][fi]["name"]),
+                                        "`%s`: field %s of type %s is read in %s mode by the derived eps reader, expected %s mode"
+                                        % (t.key, var[0]["fields"][fi]["name"], facts.ty_str(fty), a.mode, want), t.loc)
+    rep.floor("fields classified by mode", rep.counters.get("fields_mode_classified", 0), 40)
+    # ASSOC
+    exp = json.load(open(os.path.join(common.VERIF, "witness", "wcorpus", "expect.json")))
+    n = 0
+    for name, want in exp["aliases"].items():
+        ent = u.aliases.get("wcorpus::" + name)
+        if ent is None:
+            rep.add("ASSOC", name, "corpus alias %s missing from the exported facts" % name)
+            continue
+        c, aj = ent
+        l = aj.get("layout")
+        got = c.raw_tys[l["norm"]]["s"] if l else None
+        ok = got == want
+        rep.oblige(ok)
+        n += 1
+        if not ok:
+            rep.add("ASSOC", name, "associated type %s normalises to `%s`, expected `%s`" % (name, got, want))
+        elif len(rep.samples) < 12:
+            rep.sample({"alias": name, "normalised": got})
+    rep.floor("associated-type equalities", n, 25)
+    for name, want in exp["consts"].items():
+        if name.startswith("K_"):
+            continue
+        b = u.bodies.get("wcorpus::" + name)
+        got = b.value.get("v") if (b is not None and b.value) else None
+        ok = got == want
+        rep.oblige(ok)
+        if not ok:
+            rep.add("CONST", name, "constant %s evaluates to %s, expected %s" % (name, got, want))
+    return ("For every definition of the fixed corpus (one per production / feature interaction of the derive grammar): the expansion "
+            "type-checks, its three bodies agree as wire terms, the eps/full mode of every field follows the parameter rule, and the "
+            "normalised DeserType/SerType equal the expectation. Programs outside the corpus and value equality are not decided.")
+
+
+CHECKS = {"C01": check_C01, "C02": check_C02, "C15": check_C15, "C05": check_C05}
 
 
 def main(argv):
